@@ -148,7 +148,16 @@ def hDhfrag : Handler := fun r =>
       let toks := r.impl.splitOn " "
       if toks.any (fun t => t == "panic" || t.startsWith "panic(") then "fail:panic"
       else if toks.contains "hang" then "fail:hang"
-      else if !Drv.DFrag.vApplies l.a then "n/a" else
+      else if !Drv.DFrag.vApplies l.a then
+        -- a failing reader: C03 demands no panic / hang (tested above); C08, second sentence: a failure of the reader that
+        -- `ReadN` hands to the decoder comes back — wherever the model's own answer shows it, the implementation's must
+        match firstReaderErr (prog l) (RB.fresh l.a.schedule l.a.bufSize) with
+        | none => "ok"
+        | some e =>
+          let name := Drv.RBuf.errName e
+          let shows (ts : List String) := ts.any fun t => t == "err:" ++ name || t.endsWith (":" ++ name)
+          if shows ((modelAnswer l).splitOn " ") && !shows toks then s!"fail:reader-error-{name}-not-returned" else "ok"
+      else
       let o : Fit.DecApi.Opts := { chk := l.a.chk, exp := false, ml := true, dl := true, fac := Drv.DecApi.stdFactory }
       let want := apiRun o (bytesOf l.a.schedule) l.ops
       if normImpl r.impl == want then "ok" else "fail:api-model-differs:" ++ want
